@@ -257,6 +257,27 @@ class World:
         c.deliver(obj if isinstance(obj, str) else json.dumps(obj, ensure_ascii=False))
         self.run(horizon)
 
+    def http_get(self, eid, horizon=1e6):
+        """GET /e/<id>: the real ViewEventResource.on_get (one resource instance for the lifetime of the app, as in create_app)
+        + falcon's response media rendering. Returns the body text or ('status', code)."""
+        falcon = self.ns.web.falcon
+        import falcon.asgi
+
+        if getattr(self, "_http", None) is None:
+            self._http = (self.ns.web.ViewEventResource(self.storage), falcon.asgi.App())
+        res, app = self._http
+        resp = falcon.asgi.Response(options=app.resp_options)
+
+        async def go():
+            try:
+                await res.on_get(None, resp, eid)
+            except falcon.HTTPError as e:
+                return ("status", e.status)
+            body = await resp.render_body()
+            return body.decode("utf8") if isinstance(body, (bytes, bytearray)) else body
+
+        return self.call(go(), horizon)
+
     def dump(self):
         if self.backend == "sql":
             return sqlshim.dump(self.path)
